@@ -11,7 +11,11 @@
       structure returned by the reverse rule, and the vjp wrappers in MechanicsInverse;
   D4  adjoint sign: the adjoint system is solved as the minimiser of v.z + 1/2 z.H z (first CG
       direction -precond(v)), so lam = -H^-1 v, and lam^T dg/dp is returned unnegated;
-  D5  the adjoint function space equals the ordinary one built on the moved mesh.
+  D5  the adjoint function space equals the ordinary one built on the moved mesh: both constructors interpreted on symbols, parameters
+      matched by role (mode literal comparisons, record types read off them, result field they are kept in), the mesh parameter and its
+      coordinate field found by anti-unification (the input of the ordinary constructor that the adjoint one replaces by its extra argument);
+      mapped computations (vmap) and broadcasts are compared in a normal form, so `broadcast_to` / a vmapped identity / `repeat` of a new
+      axis, closing over / partial-binding / in_axes=None arguments, delegation to the ordinary constructor are one and the same value.
 Not decided: numerical equality with a dense reference.
 
 How it is decided (rules/C07_sym.py): the functions are *interpreted on symbols* -- the forward rule, the primal (down to the call
@@ -82,11 +86,12 @@ def run(ctx):
 # ------------------------------------------------------------------ shared: interpreter set-up
 
 def _straight_line(sc):
-    """no loop / try / with in the function's own body: a helper, not an algorithm"""
+    """no `while` loop in the function's own body: a helper, not an iterative algorithm (`for` loops over literal sequences, `with` blocks and
+    `try` blocks whose body completes are interpreted; a loop over data makes the interpretation fail and the call opaque)"""
     key = "_c07_straight"
     if not hasattr(sc, key):
         from optilint.model import walk_local
-        ok = not any(isinstance(n, (ast.For, ast.While, ast.AsyncFor, ast.Try, ast.With, ast.AsyncWith)) or type(n).__name__ == "TryStar"
+        ok = not any(isinstance(n, (ast.While, ast.AsyncFor, ast.AsyncWith)) or type(n).__name__ == "TryStar"
                      for n in walk_local(sc.node))
         setattr(sc, key, ok)
     return getattr(sc, key)
@@ -95,7 +100,7 @@ def _straight_line(sc):
 def _inline(sc):
     """Interpretation policy.  Functions of the modules the property is about (optimism.inverse.*, optimism.Objective, the ordinary
     function-space constructor's module) are always interpreted; any other function of the library is interpreted when it is a
-    straight-line helper (no loop / try / with), so that moving code into a helper -- in whatever module -- changes nothing.
+    helper without a `while` loop, so that moving code into a helper -- in whatever module -- changes nothing.
     Algorithms (minimisers, linear solvers, warm start) are opaque applications.  A body the interpreter cannot follow makes that
     call an opaque application as well, with heap and decisions rolled back.  The adjoint CG solver is opaque on purpose: its call
     is the event the sign rule looks at."""
@@ -107,8 +112,8 @@ def _inline(sc):
     return _straight_line(sc)
 
 
-def _interp(ctx, plan=(), duck=None, stubs=None, types=None):
-    I = S.Interp(ctx.repo, _inline, plan, touch=ctx.touch)
+def _interp(ctx, plan=(), duck=None, stubs=None, types=None, inline=None):
+    I = S.Interp(ctx.repo, inline or _inline, plan, touch=ctx.touch)
     if duck:
         I.duck = dict(duck)
     if stubs:
@@ -162,6 +167,8 @@ def _is_zero(c):
             return True
         if last in ("tree_map", "tree_multimap") and len(c[2]) >= 2 and c[2][1][0] == "ext" and c[2][1][1].split(".")[-1] == "zeros_like":
             return True
+        if last in ("tree_map", "tree_multimap") and len(c[2]) >= 2 and c[2][1][0] == "lam" and len(c[2][1]) == 5:
+            return True if _is_zero(c[2][1][3]) is True else None          # every leaf is mapped to zero
         if last in ("full_like", "full") and len(c[2]) >= 3:
             return _is_zero(c[2][2])
         if last in ("ones_like", "ones"):
@@ -257,13 +264,14 @@ def _custom_vjp_functions(ctx):
         if isinstance(call, ast.Call):
             for k in call.keywords:
                 if k.arg == "nondiff_argnums":
-                    v = k.value
-                    if isinstance(v, (ast.Tuple, ast.List)):
-                        nd = tuple(const_value(e) for e in v.elts)
-                    elif const_value(v) is not None:
-                        nd = (const_value(v),)
-                    else:
+                    try:
+                        v = _interp(ctx).eval(k.value, S.Env(m.scope, None))         # literal, or a module-level constant
+                    except (S.EvalError, S.Crash, S.Raised):
                         return None
+                    v = tuple(v) if isinstance(v, (tuple, list)) else (v,)
+                    if not all(isinstance(i, int) and not isinstance(i, bool) for i in v):
+                        return None
+                    nd = v
         return nd
 
     def is_cvjp(e, scope):
@@ -271,6 +279,7 @@ def _custom_vjp_functions(ctx):
         return any(isinstance(v, ExtVal) and v.name == "jax.custom_vjp" for v in vals)
 
     out = []
+    aliases = ctx.__dict__.setdefault("_c07_cvjp_alias", {})
     for c in m.scope.children:
         if c.kind != "function":
             continue
@@ -281,11 +290,21 @@ def _custom_vjp_functions(ctx):
                 if nondiff is None:
                     raise Incomplete(f"nondiff_argnums of {c.name} is not a literal")
         if nondiff is None:
+            # `g = custom_vjp(f, nondiff_argnums=...)` / `g = partial(custom_vjp, nondiff_argnums=...)(f)` at module level (g may be f itself)
             for st in m.tree.body:
-                if isinstance(st, ast.Assign) and len(st.targets) == 1 and isinstance(st.targets[0], ast.Name) and st.targets[0].id == c.name \
-                        and isinstance(st.value, ast.Call) and is_cvjp(st.value.func, m.scope) and st.value.args \
-                        and isinstance(st.value.args[0], ast.Name) and st.value.args[0].id == c.name:
-                    nondiff = nondiff_of(st.value)
+                if not (isinstance(st, ast.Assign) and len(st.targets) == 1 and isinstance(st.targets[0], ast.Name) and isinstance(st.value, ast.Call)
+                        and len(st.value.args) >= 1 and isinstance(st.value.args[0], ast.Name) and st.value.args[0].id == c.name):
+                    continue
+                call = st.value
+                if isinstance(call.func, ast.Call) and any(is_cvjp(a_, m.scope) for a_ in call.func.args):
+                    nondiff = nondiff_of(call.func)               # partial(custom_vjp, nondiff_argnums=...)(f)
+                elif not isinstance(call.func, ast.Call) and is_cvjp(call.func, m.scope):
+                    nondiff = nondiff_of(call)                    # custom_vjp(f, nondiff_argnums=...)
+                else:
+                    continue
+                if nondiff is None:
+                    raise Incomplete(f"nondiff_argnums of {c.name} is not a literal")
+                aliases.setdefault(c.qualname, set()).add(st.targets[0].id)
         if nondiff is not None:
             out.append((c, tuple(nondiff)))
     return out
@@ -304,7 +323,8 @@ def _registration(ctx, prim):
     for st in ast.walk(m.tree):
         if isinstance(st, ast.Call) and isinstance(st.func, ast.Attribute) and st.func.attr == "defvjp":
             tgt = _resolve_fn(ctx, st.func.value, m.scope)
-            if tgt is not prim:
+            alias = isinstance(st.func.value, ast.Name) and st.func.value.id in ctx.__dict__.get("_c07_cvjp_alias", {}).get(prim.qualname, ())
+            if tgt is not prim and not alias:
                 continue
             args = list(st.args)
             kw = {k.arg: k.value for k in st.keywords}
@@ -492,7 +512,17 @@ def _reverse_rule_body(ctx, prim, nondiff, emit):
     name = prim.name
     reg = _registration(ctx, prim)
     if reg is None:
-        emit("D2", R2, f"{name}:defvjp", False, prim, None, "",
+        # registrations of the module whose receiver is not one of the (other) custom_vjp functions: possibly this one, in an idiom not recognised
+        known = {c.qualname for c, _ in _vjp_models(ctx)}
+        aliases = {a_ for q, names in ctx.__dict__.get("_c07_cvjp_alias", {}).items() for a_ in names}
+        other = []
+        for n in ast.walk(prim.module.tree):
+            if isinstance(n, ast.Attribute) and n.attr == "defvjp":
+                tgt = _resolve_fn(ctx, n.value, prim.module.scope)
+                if not ((tgt is not None and tgt.qualname in known) or (isinstance(n.value, ast.Name) and n.value.id in aliases)):
+                    other.append(n)
+        emit("D2", R2, f"{name}:defvjp", None if other else False, prim, None,
+             f"no {name}.defvjp(fwd, bwd) registration was recognised among the {len(other)} defvjp calls of the module",
              f"{name} is decorated with custom_vjp but no {name}.defvjp(fwd, bwd) registration exists")
         return
     fwd, bwd, regnode = reg
@@ -509,11 +539,11 @@ def _reverse_rule_body(ctx, prim, nondiff, emit):
 
     # ---- signatures (arity is what jax checks; names are free)
     nf = len(fwd.params())
-    okf = fwd.n_required() <= len(pp) <= nf
+    okf = fwd.n_required() <= len(pp) and (len(pp) <= nf or fwd.has_varargs())
     emit("D2", R2, f"{name}:fwd-signature", okf, fwd, None,
          f"fwd has {nf} parameters, primal {len(pp)}", f"forward rule {fwd.name} takes {nf} parameters but the primal takes {len(pp)}")
     nb = len(bwd.params())
-    okb = (bwd.n_required() <= len(nondiff) + 2 <= nb)
+    okb = bwd.n_required() <= len(nondiff) + 2 and (len(nondiff) + 2 <= nb or bwd.has_varargs())
     emit("D2", R2, f"{name}:bwd-signature", okb, bwd, None, f"bwd takes {nb} parameters: {len(nondiff)} non-differentiable + residuals + cotangent",
          f"backward rule takes {nb} parameters; expected {len(nondiff)} non-differentiable + residuals + cotangent")
     if not okb or not okf:
@@ -538,7 +568,17 @@ def _reverse_rule_body(ctx, prim, nondiff, emit):
     args0 = M.arg_values(I0)
     outc = I0.canon(fv[0])
     pvals = {p.I.canon(p.value) for p in pgood}
-    okout = all(o[:4] == ("app", ("func", prim.qualname), I0.canon(tuple(args0)), ("tuple",)) or o in pvals for o in st["fwd_outs"])
+    want = ("app", ("func", prim.qualname), I0.canon(tuple(args0)), ("tuple",))
+
+    def out_verdict(o):
+        if o[:4] == want or o in pvals:
+            return True
+        # positively another value: a named value (an argument, a constant), or a term of the same shape that differs in a named value
+        if _atomic(o) or any(_differs(o[:4] if o[0] == "app" else o, w)[0] is False for w in [want] + sorted(pvals, key=repr)):
+            return False
+        return None
+    verdicts = [out_verdict(o) for o in st["fwd_outs"]]
+    okout = False if any(v is False for v in verdicts) else (None if any(v is None for v in verdicts) else True)
     emit("D2", R2, f"{name}:fwd-calls-primal", okout, fwd, None, f"out = {P_(outc)[:120]}",
          f"forward output `{P_(outc)[:160]}` is not the primal applied to the forward rule's own arguments in order (nor the value the primal computes for them)")
     SOL = outc            # what jax hands out as the solution; the backward rule must linearise there
@@ -758,7 +798,8 @@ def _evaluate(M, ndiff):
         return out
     fv = good[0].value
     if any(not (isinstance(p.value, tuple) and len(p.value) == 2) for p in good):
-        out["stop"] = ("fwd-returns-pair", False, M.fwd, "forward rule does not return a pair (out, residuals)")
+        opaque = any(isinstance(p.value, S.T) for p in good)          # the value of a call that is not interpreted: its width is unknown
+        out["stop"] = ("fwd-returns-pair", None if opaque else False, M.fwd, "forward rule does not return a pair (out, residuals)")
         return out
     # path-dependent forward values: every one of them must be the primal's value; the backward rule is analysed on the first
     out["fwd_outs"] = [p.I.canon(p.value[0]) for p in good]
@@ -793,8 +834,12 @@ def _evaluate(M, ndiff):
         return out
     oi, cells, cellvals = next(iter(facts))
     if len(cells) == 0:
-        out["stop"] = ("primal", False, M.prim, "the primal never stores (a function of) its differentiable arguments in the parameters of the objective "
-                       "before the minimiser runs: the equilibrium that is returned does not depend on them, every sensitivity is meaningless")
+        hidden = sorted({q for p in pgood for q in _may_store_on(M.ctx, p.I, ("sym", f"nd{oi}"), [("sym", f"arg{j}") for j in M.ndiff_idx])})
+        out["stop"] = ("primal", None if hidden else False, M.prim,
+                       (f"the primal hands the objective and its differentiable arguments to {hidden}, which is not interpreted and assigns attributes of the objective"
+                        if hidden else
+                        "the primal never stores (a function of) its differentiable arguments in the parameters of the objective "
+                        "before the minimiser runs: the equilibrium that is returned does not depend on them, every sensitivity is meaningless"))
         return out
     if len(cells) != 1:
         out["stop"] = ("primal", None, M.prim, f"the primal stores differentiable arguments in {len(cells)} attributes of the objective")
@@ -811,7 +856,33 @@ def _evaluate(M, ndiff):
             nts = _params_class(M.ctx, pgood[0].I)
             if len(nts) == 1:
                 out["new_types"][stale_name] = (nts[0].name, nts[0].fields, len(nts[0].defaults))
+    # a differentiable argument that is stored as the parameter cell, whole, is a parameter record (it can then be iterated, zipped, unpacked)
+    c0 = cellvals[0]
+    if c0[0] == "sym" and c0[1] in {f"arg{j}" for j in M.ndiff_idx} and c0[1] not in M.types:
+        nts = _params_class(M.ctx, pgood[0].I)
+        if len(nts) == 1:
+            out["new_types"][c0[1]] = (nts[0].name, nts[0].fields, len(nts[0].defaults))
     out.update(fv=fv, good=good, bps=bps, pgood=pgood, oi=oi, pattr=pattr, PF=cellvals[0])
+    return out
+
+
+def _may_store_on(ctx, I, objsym, argsyms):
+    """qualified names of the un-interpreted repository functions that were called with the objective and with (a function of) a differentiable
+    argument, and whose own body assigns an attribute of the parameter the objective was bound to"""
+    out = []
+    for ev in I.events:
+        if ev.c[1][0] != "func" or not (ev.extra or {}).get("params"):
+            continue
+        args = ev.c[2][1:]
+        if not any(S.occurs(x, s_) for x in args for s_ in argsyms):
+            continue
+        sc = ctx.repo.find(ev.c[1][1])
+        if sc is None:
+            continue
+        for q, x in zip(ev.extra["params"], args):
+            if x == objsym and any(isinstance(n, ast.Attribute) and isinstance(n.ctx, ast.Store) and isinstance(n.value, ast.Name) and n.value.id == q
+                                   for n in ast.walk(sc.node)):
+                out.append(ev.c[1][1])
     return out
 
 
@@ -848,32 +919,64 @@ def _none_key(pk_canon):
     return ("eq", lo, hi)
 
 
-def _solver_ignores_start(ctx):
-    """True when the CG solver uses its first parameter only as `0 * x` (a shape donor): the iteration starts from zero whatever is passed."""
-    cg = ctx.repo.find(SOLVER)
-    if cg is None or not cg.params():
-        return None
-    x = cg.params()[0]
-    parent = {}
-    for n in ast.walk(cg.node):
-        for ch in ast.iter_child_nodes(n):
-            parent[id(ch)] = n
-    uses = [n for n in ast.walk(cg.node) if isinstance(n, ast.Name) and n.id == x and isinstance(n.ctx, ast.Load)]
-    if not uses:
+def _cg_paths(ctx):
+    """paths of the CG solver interpreted on symbols, its loop body run once on generic data (shared by the sign rule and the start rule)"""
+    key = "_c07_cg_paths"
+    if key not in ctx.__dict__:
+        cg = ctx.need(SOLVER)
+        ps = cg.params()
+
+        def mk(plan):
+            I = _interp(ctx, plan)
+            I.loop_once = True
+            return I
+
+        def run(I):
+            f = S.Closure(cg, I.module_env(cg.module))
+            return I.call_closure(f, [I.sym(p_) for p_ in ps], {}, force=True)
+        ctx.__dict__[key] = S.paths(mk, run, limit=64)
+    return ctx.__dict__[key]
+
+
+def _occurs_nonzero(c, x):
+    """x occurs in the canonical term c outside every sub-term that is certainly zero (0*x, zeros_like(x))"""
+    if _is_zero(c) is True:
+        return False
+    if c == x:
         return True
-    for u in uses:
-        par = parent.get(id(u))
-        ok = False
-        if isinstance(par, ast.BinOp) and isinstance(par.op, ast.Mult):
-            other = par.right if par.left is u else par.left
-            ok = const_value(other) == 0 and const_value(other) is not None
-        if isinstance(par, ast.Call) and (S.norm_src(par.func).split(".")[-1] in ("zeros_like",)):
-            ok = True
-        if not ok:
-            return None
-    if any(isinstance(n, ast.Name) and n.id == x and isinstance(n.ctx, ast.Store) for n in ast.walk(cg.node)):
-        return None
-    return True
+    if isinstance(c, tuple):
+        if len(c) == 5 and c[0] == "lam" and isinstance(c[4], tuple) and x in c[4]:
+            return False
+        return any(_occurs_nonzero(y, x) for y in c)
+    return False
+
+
+def _solver_ignores_start(ctx):
+    """True when the CG solver uses its first parameter only as a shape donor (0*x, zeros_like(x)): on every interpreted path -- early exits
+    and one generic iteration -- neither the returned iterate nor anything handed to the Hessian or the preconditioner depends on it
+    through a non-zero term.  The iteration then starts from zero whatever is passed.  None: not established."""
+    key = "_c07_cg_start"
+    if key in ctx.__dict__:
+        return ctx.__dict__[key]
+    res = None
+    try:
+        cg = ctx.repo.find(SOLVER)
+        ps = cg.params() if cg is not None else []
+        paths = _cg_paths(ctx) if len(ps) >= 4 else []
+        rets = [p for p in paths if p.kind == "return"]
+        if rets and any(len(p.I.loop_done) == 1 for p in rets) and not any(p.kind == "error" for p in paths):
+            X = ("sym", ps[0])
+            dep = False
+            for p in rets:
+                rv = p.value
+                z = p.I.canon(rv[0]) if isinstance(rv, tuple) and rv else p.I.canon(rv)
+                terms = [z] + [ev.c for ev in p.I.events if ev.c[1] in (("sym", ps[2]), ("sym", ps[3]))]
+                dep = dep or any(_occurs_nonzero(t, X) for t in terms)
+            res = True if not dep else None
+    except (S.EvalError, S.Crash, S.Raised, Incomplete, RecursionError):
+        res = None
+    ctx.__dict__[key] = res
+    return res
 
 
 # ------------------------------------------------------------------ D3
@@ -978,8 +1081,10 @@ def _deriv_terms(c):
 def d3_objective_closures(ctx, pattern=None, min_count=6):
     """Every derivative operator that Objective's constructor stores on the instance (callables that return a vjp / jvp of the residual)
     must differentiate at *its own* parameter argument: the slot that is varied is the slot whose current value is the primal, all other
-    slots are read from the same argument (not from state captured when the closure was built / traced).  Every public method that
-    returns such a derivative must agree with the slot number and the side (vec_ = left, _vec = right) announced by its name."""
+    slots are read from the same argument (not from state captured when the closure was built / traced).  Every method that returns such
+    a derivative must take it either at the parameters stored on the object or -- an operator written as a method instead of a stored
+    closure -- at its own parameter argument, and must agree with the slot number and the side (vec_ = left, _vec = right) announced by
+    its name."""
     rule = "D3/T5-parameter-slots"
     kinds = _kinds_of(pattern)
     I, obj, cls = _objective_instance(ctx)
@@ -1072,9 +1177,8 @@ def d3_objective_closures(ctx, pattern=None, min_count=6):
             ctx.decide(rule, ok, init, None, construct=f"Objective.{attr}",
                        detail=f"slot {k}: varies parameter[{k}] of its own argument at primal parameter[{k}]",
                        bad_detail=f"Objective.{attr} " + "; ".join(why or ["is not an exact parameter derivative of the residual"]))
-    if n_cl < min_count:
-        raise Incomplete(f"{n_cl} parameter jvp/vjp closures found in Objective.__init__ ({min_count} on the reference tree)")
-    # public methods
+    # methods
+    n_cl_methods = []
     for meth in cls.children:
         if meth.kind != "function" or meth.name.startswith("__"):
             continue
@@ -1104,6 +1208,14 @@ def d3_objective_closures(ctx, pattern=None, min_count=6):
             k = info.get("slot")
             exact = info["wrt"] == "p" and info["X"] == ("item", storedc, ("c", k)) and \
                 all(f == ("item", storedc, ("c", j)) for j, f in enumerate(info["fields"]) if j != k)
+            if not exact:
+                # an operator written as a method that takes the parameters as an argument (what the constructor's closures do): it must
+                # differentiate at that argument, like a closure
+                symc = [s_.c for s_ in syms]
+                exact = any(info["X"] == ("item", b, ("c", k)) and all(f == ("item", b, ("c", j)) for j, f in enumerate(info["fields"]) if j != k) for b in symc) \
+                    and info["U"] in symc
+                if exact:
+                    n_cl_methods.append(meth.name)
             ok = exact and (want is None or want == k) and (side is None or side == info["kind"])
             ctx.decide(rule, ok, meth, None, construct=f"Objective.{meth.name}",
                        detail=f"{info['kind']} of the residual with respect to parameter slot {k} at the stored parameters",
@@ -1111,6 +1223,8 @@ def d3_objective_closures(ctx, pattern=None, min_count=6):
                                   + (f" (the name announces slot {want})" if want is not None and want != k else "")
                                   + (f" (the name announces a {side})" if side and side != info["kind"] else "")
                                   + ("" if exact else " and not at the parameters stored on the object"))
+    if n_cl + len(n_cl_methods) < min_count:
+        raise Incomplete(f"{n_cl + len(n_cl_methods)} parameter jvp/vjp operators found in Objective ({min_count} on the reference tree)")
 
 
 def _objective_param_attr(ctx, I, obj):
@@ -1156,10 +1270,42 @@ def _drop_static(c, x):
     return c
 
 
+def _signature(val):
+    """(positional parameter names, keyword-only names, names with a default, scope) of a callable created by interpreted code -- a closure, a
+    bound method, a partial application of those -- or None when the signature is open (*args / **kwargs)"""
+    if isinstance(val, S.Closure):
+        sc = val.scope
+        if sc.has_varargs() or sc.has_kwargs():
+            return None
+        pos, kw = list(sc.params()), list(sc.kwonly())
+        return pos, kw, [q for q in pos + kw if sc.default_of(q) is not None], sc
+    if isinstance(val, S.Bound):
+        inner = _signature(val.func)
+        if inner is None or not inner[0]:
+            return None
+        return inner[0][1:], inner[1], inner[2], inner[3]
+    if isinstance(val, S.Partial):
+        inner = _signature(val.f)
+        if inner is None or len(val.args) > len(inner[0]):
+            return None
+        pos, kw, dfl, sc = inner
+        pos = pos[len(val.args):]
+        bound = [q for q in pos if q in val.kwargs]
+        if bound:
+            # parameters after the first one bound by keyword can only be passed by keyword
+            i = pos.index(bound[0])
+            pos, kw = pos[:i], [q for q in pos[i:] if q not in val.kwargs] + kw
+        kw = [q for q in kw if q not in val.kwargs]
+        return pos, kw, dfl, sc
+    return None
+
+
 def _d3_wrappers(ctx):
-    """MechanicsInverse: every callable handed out by a factory that returns `vjp(F, P)[1](ct)[i]` must (1) differentiate F with respect to the
-    argument whose current value is P -- P itself must not occur in F next to the differentiation variable, and every other argument of the
-    callable (defaults included) must reach F; (2) use one of its own arguments as cotangent."""
+    """MechanicsInverse: every callable handed out by a factory (closure, def, partial application of a module-level function) that returns
+    `vjp(F, P)[1](ct)[i]` must (1) differentiate F with respect to the argument whose current value is P -- P itself must not occur in F next
+    to the differentiation variable, and every other argument of the callable (defaults included) must reach F; (2) use one of its own
+    arguments as cotangent; (3) differ from every other product of the same record (component i of a pull-back with several primals is read as
+    the single-primal pull-back with the other primals held fixed, so the spelling of the selection does not matter)."""
     rule = "D3/T5-parameter-slots"
     mi = ctx.need_module(MI)
     n_w = 0
@@ -1177,6 +1323,7 @@ def _d3_wrappers(ctx):
         except S.EvalError:
             continue
         seen = set()
+        products = {}              # record type -> [(field, canonical product with the wrapper's arguments numbered by position)]
         for p in ps:
             if p.kind != "return" or not isinstance(p.value, S.Rec):
                 continue
@@ -1184,18 +1331,19 @@ def _d3_wrappers(ctx):
             for fld, val in zip(p.value.fields, p.value.values):
                 if not isinstance(val, (S.Closure, S.Partial, S.Bound)):
                     continue
-                sc = val.scope if isinstance(val, S.Closure) else None
-                if sc is None or sc.has_varargs() or sc.has_kwargs():
+                sig = _signature(val)
+                if sig is None:
                     continue
+                pos, kwonly, defaults, sc = sig
                 wid = f"{p.value.tname}.{fld}"
                 if wid in seen:
                     continue
-                params = sc.params() + sc.kwonly()
-                syms = [J.sym(f"{fld}.{q}") for q in sc.params()]
+                params = pos + kwonly
+                syms = [J.sym(f"{fld}.{q}") for q in pos]
                 J.in_canon += 1
                 snap = J.snapshot()
                 try:
-                    res = J.canon(J.call_closure(val, list(syms), {q: J.sym(f"{fld}.{q}") for q in sc.kwonly()}, force=True))
+                    res = J.canon(J.call(val, list(syms), {q: J.sym(f"{fld}.{q}") for q in kwonly}))
                 except (S.EvalError, S.Crash, S.Raised) as ex:
                     ctx.undecided(rule, sc, None, construct=f"vjp-wrapper:{wid}", detail=f"callable cannot be interpreted: {ex}")
                     seen.add(wid)
@@ -1213,6 +1361,8 @@ def _d3_wrappers(ctx):
                                bad_detail=f"{wid} accepts {unused} but never forwards it to the wrapped computation (the value silently falls back to a default)")
                     continue
                 n_w += 1
+                products.setdefault(p.value.tname, []).append(
+                    (fld, S.subst_many(res, {("sym", f"{fld}.{q}"): ("sym", f"#{i}") for i, q in enumerate(params)}), len(params)))
                 F, primals, ct, idx = core[1], core[2][1:], core[3], core[4][1]
                 X = primals[idx] if idx < len(primals) else None
                 if not (isinstance(F, tuple) and F[0] == "lam" and F[1] == len(primals)):
@@ -1234,6 +1384,16 @@ def _d3_wrappers(ctx):
                            bad_detail=f"{wid}: vjp primal is `{symc.get(X, S.show(X)[:30] if X else '?')}` but "
                                       + (f"`{inside}` also occurs as a fixed argument of the differentiated computation, so the differentiation variable stands for another argument" if inside
                                          else (f"the primal {notarg} is not an argument of the wrapper" if notarg else "the differentiated computation ignores its variable")))
+        # the products one factory hands out under different names are different derivatives: two fields that are one and the same function
+        # of their (positional) arguments cannot both be what their names announce
+        for tname, prods in products.items():
+            if len(prods) < 2:
+                continue
+            same = [(f1, f2) for i, (f1, c1, n1) in enumerate(prods) for (f2, c2, n2) in prods[i + 1:] if c1 == c2 and n1 == n2]
+            ctx.decide(rule, not same, fac, None, construct=f"vjp-wrapper-distinct:{tname}",
+                       detail=f"the {len(prods)} vector-Jacobian products of {tname} differentiate with respect to different arguments",
+                       bad_detail=f"{tname}: the products {same[0] if same else ''} are the same function of their arguments -- the same derivative is handed out under two names, "
+                                  f"so one of them is not the derivative its name announces")
     if n_w < 5:
         raise Incomplete(f"{n_w} vjp wrappers found in MechanicsInverse (5 on the reference tree)")
 
@@ -1326,15 +1486,7 @@ def _d4_cg(ctx):
     if len(ps) != 6:
         raise Incomplete("the CG solver does not have the parameters (x, r, hess_vec, precond, trSize, settings)")
 
-    def mk(plan):
-        I = _interp(ctx, plan)
-        I.loop_once = True
-        return I
-
-    def run(I):
-        f = S.Closure(cg, I.module_env(cg.module))
-        return I.call_closure(f, [I.sym(p_) for p_ in ps], {}, force=True)
-    paths = S.paths(mk, run, limit=64)
+    paths = _cg_paths(ctx)
     full = [p for p in paths if p.kind == "return" and len(p.I.loop_done) == 1]
     if not full:
         ctx.undecided(rule, cg, None, construct="cg-first-direction", detail=f"no path through one complete CG iteration could be interpreted ({_why(paths)})")
@@ -1373,9 +1525,18 @@ def _d4_cg(ctx):
             okv, what = _same_value(z1, step)
         agg.add(rule, "cg-step", okv, cg, None, "z_{k+1} = z + (rPr/curvature) d, curvature = d.(H d), z_0 = 0",
                 f"after one iteration the CG iterate is `{S.show(z1)[:120]}`, not 0 + (r.precond(r) / d.(H d)) d ({what})")
-        env = I.loop_done[0]
-        r1 = I.canon(env.get(ps[1]))
+        # the residual after the iteration, by role: what the preconditioner is applied to the second time (the first time it is the
+        # initial residual); only when the preconditioner is applied once, the local that carries the parameter's name
+        pre_calls = [ev for ev in I.events if ev.c[1] == PRE.c and len(ev.c[2]) > 1]
+        if len(pre_calls) >= 2:
+            r1 = pre_calls[1].c[2][1]
+        else:
+            env = I.loop_done[0]
+            r1 = I.canon(env.get(ps[1])) if env.get(ps[1]) is not None else None
         want = bin_("+", R.c, bin_("*", alpha, Hd))
+        if r1 is None or (r1 == R.c and len(pre_calls) < 2):
+            agg.add(rule, "cg-residual-recurrence", None, cg, None, "the residual after one iteration could not be located (the preconditioner is applied once)")
+            continue
         okr, what = _same_value(r1, want)
         agg.add(rule, "cg-residual-recurrence", okr, cg, None, "r += alpha*H d",
                 f"after one iteration the CG residual is `{S.show(r1)[:120]}`, not r + alpha*H d ({what})")
@@ -1396,13 +1557,44 @@ def _atomic(c):
         return all(_atomic(x) for x in c[1:])
     if c[0] == "rec":
         return all(_atomic(x) for x in c[2:])
+    if c[0] in ("dim", "all") and len(c) == 2:
+        return _atomic(c[1])          # segment of a shape: an extent / all extents of a named array
     return False
+
+
+def _expand_shapes(c, ranks):
+    """canonical key with every `all extents of x` segment of a broadcast shape written out as x.shape[0], ..., x.shape[k-1] when the number
+    of axes of x is known (ranks: canonical array -> k)"""
+    if not isinstance(c, tuple):
+        return c
+    if len(c) == 3 and c[0] == "bcast" and isinstance(c[2], tuple) and c[2][:1] == ("tuple",):
+        parts = []
+        for seg in c[2][1:]:
+            if seg[0] == "all" and seg[1] in ranks:
+                parts += [("dim", ("item", ("attr", seg[1], ("c", "shape")), ("c", j))) for j in range(ranks[seg[1]])]
+            else:
+                parts.append(seg)
+        return ("bcast", _expand_shapes(c[1], ranks), ("tuple",) + tuple(parts))
+    return tuple(_expand_shapes(x, ranks) for x in c)
 
 
 def _first_diff(a, b):
     """innermost pair of differing sub-terms of two canonical keys (None when equal)"""
     if a == b:
         return None
+    if isinstance(a, tuple) and isinstance(b, tuple) and len(a) == 3 and len(b) == 3 and a[0] == b[0] == "bcast" and a[1] == b[1]:
+        # two broadcasts of one array: the target shapes decide.  Common leading / trailing segments are dropped; what is left is comparable
+        # only when it is written extent by extent (`all extents of x` has an unknown number of entries)
+        pa, pb = list(a[2][1:]), list(b[2][1:])
+        while pa and pb and pa[0] == pb[0]:
+            pa, pb = pa[1:], pb[1:]
+        while pa and pb and pa[-1] == pb[-1]:
+            pa, pb = pa[:-1], pb[:-1]
+        if any(seg[0] != "dim" for seg in pa + pb):
+            return (a, b)
+        if len(pa) == len(pb) and sorted(map(repr, pa)) != sorted(map(repr, pb)):
+            return (a, b)             # extents of different arrays: whether they agree is a fact about the data, not decided here
+        return (("tuple",) + tuple(pa), ("tuple",) + tuple(pb))       # another number of axes, or the same extents in another order
     if isinstance(a, tuple) and isinstance(b, tuple) and a and b and a[0] == b[0] and len(a) == len(b) \
             and a[0] not in ("c", "sym", "ext", "func", "cls", "attr", "item"):
         diffs = [d for d in (_first_diff(x, y) for x, y in zip(a[1:], b[1:])) if d is not None]
@@ -1427,7 +1619,8 @@ def _differs(a, b):
 
 
 def _namedtuples_of_repo(ctx, I):
-    """[(NTClass)] of the module-level namedtuple definitions of the library (AST filter first, evaluated by the interpreter)"""
+    """[(NTClass)] of the module-level record types of the library: `X = namedtuple(...)` assignments and `class X(NamedTuple)` definitions
+    (AST filter first, evaluated by the interpreter)"""
     key = "_c07_nts"
     if key in ctx.__dict__:
         return ctx.__dict__[key]
@@ -1444,124 +1637,184 @@ def _namedtuples_of_repo(ctx, I):
                     continue
                 if isinstance(v, S.NTClass):
                     out.append(v)
+            elif isinstance(st, ast.ClassDef) and any(S.norm_src(b).split(".")[-1] == "NamedTuple" for b in st.bases):
+                flds = [x.target.id for x in st.body if isinstance(x, ast.AnnAssign) and isinstance(x.target, ast.Name)]
+                ndef = len([x for x in st.body if isinstance(x, ast.AnnAssign) and x.value is not None])
+                if flds:
+                    out.append(S.NTClass(st.name, flds, (None,) * ndef))
     ctx.__dict__[key] = out
     return out
 
 
+_RECORD_API = {"_replace", "_asdict", "_fields", "_make", "_field_defaults", "count", "index"}
+
+
 def _attr_reads(c, out):
-    """{symbol name: {attribute names}} read directly off symbols inside a canonical key"""
+    """{symbol name: {attribute names}} read directly off symbols inside a canonical key (the record protocol -- _replace, _asdict, ... -- is
+    not a field)"""
     if isinstance(c, tuple):
-        if len(c) == 3 and c[0] == "attr" and isinstance(c[1], tuple) and c[1][:1] == ("sym",) and isinstance(c[2], tuple) and c[2][:1] == ("c",):
+        if len(c) == 3 and c[0] == "attr" and isinstance(c[1], tuple) and c[1][:1] == ("sym",) and isinstance(c[2], tuple) and c[2][:1] == ("c",) \
+                and c[2][1] not in _RECORD_API:
             out.setdefault(c[1][1], set()).add(c[2][1])
         for x in c:
             _attr_reads(x, out)
     return out
 
 
-def d5(ctx):
-    """The function space returned by the adjoint constructor for (coords, shapeOnRef, mesh, quadratureRule, mode) must be, field by field,
-    the value the ordinary constructor returns for the mesh moved to `coords` (same shapeOnRef, quadratureRule, mode) -- for every mode
-    literal either constructor distinguishes.  Both constructors are interpreted on symbols; fields are compared as terms."""
-    rule = "D5/T6-adjoint-function-space"
-    a = ctx.need(f"{AFS}:construct_function_space_for_adjoint")
-    f = ctx.need(f"{FS}:construct_function_space_from_parent_element")
-    aps, fps = a.params(), f.params()
-    extra = [p for p in aps if p not in fps]
-    if len(extra) != 1 or any(p not in aps for p in fps):
-        raise Incomplete(f"parameters of the adjoint constructor {aps} are not those of the ordinary constructor {fps} plus the coordinates")
-    cpar = extra[0]
-    C = ("sym", cpar)
-    types = {}
+def _substituted(a, b, types, out):
+    """anti-unification of two canonical keys: the pairs (sub-term of a, sub-term of b) at which the two first differ.  A symbol known to be
+    a record is expanded into its fields when it stands against a record."""
+    if a == b:
+        return out
+    if isinstance(a, tuple) and isinstance(b, tuple) and a and b:
+        for x, y, flip in ((a, b, False), (b, a, True)):
+            if x[0] == "sym" and x[1] in types and y[0] == "rec" and y[1] == types[x[1]][0] and len(y) - 2 == len(types[x[1]][1]):
+                for j in range(len(y) - 2):
+                    e = ("item", x, ("c", j))
+                    _substituted(y[2 + j] if flip else e, e if flip else y[2 + j], types, out)
+                return out
+        if a[0] == b[0] and len(a) == len(b) and a[0] not in ("c", "sym", "ext", "func", "cls", "attr", "item"):
+            for x, y in zip(a[1:], b[1:]):
+                _substituted(x, y, types, out)
+            return out
+    out.append((a, b))
+    return out
 
-    def run_ctor(sc, argmap):
-        def run(J):
-            fn = J.module_value(sc.module, sc.name)
-            return J.call_closure(fn, [argmap(J, p_) for p_ in sc.params()], {}, force=True)
-        return S.paths(lambda plan: _interp(ctx, plan, types=types), run, limit=32)
 
-    # pass 1: everything symbolic -- collects the literals the mode is compared with, and which attributes are read off which argument
-    modes_seen, mode_pars, reads = set(), set(), {}
-    for sc in (a, f):
-        for p in run_ctor(sc, lambda J, p_: J.sym(p_)):
+class _Ctor:
+    """What one function-space constructor shows about its parameters when it is interpreted on symbols: the parameter that selects the mode
+    (compared with string literals), the literals, the attributes read off every parameter, and the fields of the result in which a
+    parameter is kept as it is.  Interpreted repeatedly while the attribute reads reveal record types of the parameters (a record-typed
+    parameter can be sliced, unpacked, `_replace`d)."""
+
+    def __init__(self, ctx, sc, nts):
+        self.sc = sc
+        self.params = sc.params()
+        self.modes, self.mode_pars, self.reads, self.kept = set(), set(), {}, {}
+        types = {}
+        for _round in range(3):
+            self._run(ctx, types)
+            new = {par: (nt.name, nt.fields, len(nt.defaults)) for par, nt in self.record_types(nts).items()}
+            if new == types:
+                break
+            types = new
+
+    def _run(self, ctx, types):
+        sc = self.sc
+        ps = S.paths(lambda plan: _interp(ctx, plan, types=types),
+                     lambda J: J.call_closure(J.module_value(sc.module, sc.name), [J.sym(q) for q in self.params], {}, force=True), limit=32)
+        self.kept = {}
+        for p in ps:
             for (key, d) in p.trace:
                 if key[0] == "eq":
                     for x, y in ((key[1], key[2]), (key[2], key[1])):
-                        if x[0] == "c" and isinstance(x[1], str) and y[0] == "sym" and y[1] in sc.params():
-                            modes_seen.add(x[1])
-                            mode_pars.add(y[1])
+                        if x[0] == "c" and isinstance(x[1], str) and y[0] == "sym" and y[1] in self.params:
+                            self.modes.add(x[1])
+                            self.mode_pars.add(y[1])
+            for par, attrs in p.I.sym_reads.items():
+                if par in self.params:
+                    self.reads.setdefault(par, set()).update(x for x in attrs if x not in _RECORD_API)
             if p.kind == "return":
-                _attr_reads(p.I.canon(p.value), reads)
+                _attr_reads(p.I.canon(p.value), self.reads)
+                if isinstance(p.value, S.Rec):
+                    # fields of the result in which a parameter is kept as it is
+                    for fld, v in zip(p.value.fields, p.value.values):
+                        c = p.I.canon(v)
+                        if c[0] == "sym" and c[1] in self.params:
+                            self.kept.setdefault(c[1], set()).add(fld)
             for ev in p.I.events:
-                _attr_reads(ev.c, reads)
-    if len(mode_pars) != 1 or not modes_seen:
-        raise Incomplete(f"mode parameter / mode literals of the function-space constructors not found ({sorted(mode_pars)}, {sorted(modes_seen)})")
-    mpar = next(iter(mode_pars))
-    da, df = a.default_of(mpar), f.default_of(mpar)
-    ctx.decide(rule, (da is None and df is None) or (da is not None and df is not None and const_value(da) == const_value(df)), a, da, construct="default-mode",
-               detail=f"default {mpar} = {src(da)} in both constructors",
-               bad_detail=f"default {mpar} is {src(da)} in the adjoint constructor and {src(df)} in the ordinary one")
-    # record types of the arguments, by role: the unique namedtuple of the library that has all the fields read off the argument
+                _attr_reads(ev.c, self.reads)
+
+    def record_types(self, nts, extra_reads=None):
+        """{parameter: record type} -- the unique record type of the library that has all the fields read off the parameter"""
+        out = {}
+        for par in self.params:
+            attrs = set(self.reads.get(par, ())) | set((extra_reads or {}).get(par, ()))
+            if attrs and par not in self.mode_pars:
+                cands = [nt for nt in nts if attrs <= set(nt.fields)]
+                if len(cands) == 1:
+                    out[par] = cands[0]
+        return out
+
+
+def d5(ctx):
+    """The function space returned by the adjoint constructor for (coords, shapeOnRef, mesh, quadratureRule, mode) must be, field by field,
+    the value the ordinary constructor returns for the mesh moved to `coords` (same shapeOnRef, quadratureRule, mode) -- for every mode
+    literal either constructor distinguishes.  Both constructors are interpreted on symbols; fields are compared as terms.
+
+    Everything is located by role.  The parameters of the two constructors correspond by what is done with them (the one compared with mode
+    literals; the ones read as the same record type), by name only when that says nothing.  The mesh parameter P and its coordinate field
+    K are found by anti-unification: P.K is the input of the ordinary constructor that the adjoint constructor replaces by its extra
+    argument.  Terms are compared with every straight-line helper interpreted (so that moving code between functions changes nothing); a
+    difference is REFUTED only when, with the library's public functions kept as names, the two terms have the same shape and differ in a
+    named value (another function, another array, another constant)."""
+    rule = "D5/T6-adjoint-function-space"
+    a = ctx.need(f"{AFS}:construct_function_space_for_adjoint")
+    f = ctx.need(f"{FS}:construct_function_space_from_parent_element")
     I0 = _interp(ctx)
     nts = _namedtuples_of_repo(ctx, I0)
-    for par, attrs in reads.items():
-        if par in fps and par != mpar:
-            cands = [nt for nt in nts if attrs <= set(nt.fields)]
-            if len(cands) == 1:
-                types[par] = (cands[0].name, cands[0].fields, len(cands[0].defaults))
+    ca, cf = _Ctor(ctx, a, nts), _Ctor(ctx, f, nts)
+    modes_seen = ca.modes | cf.modes
+    if len(ca.mode_pars) > 1 or len(cf.mode_pars) > 1 or not (ca.mode_pars or cf.mode_pars) or not modes_seen:
+        raise Incomplete(f"mode parameter / mode literals of the function-space constructors not found ({sorted(ca.mode_pars)}, {sorted(cf.mode_pars)}, {sorted(modes_seen)})")
 
-    mode0 = sorted(modes_seen)[0]
-    firstp = run_ctor(a, lambda J, p_: mode0 if p_ == mpar else J.sym(p_))
-    first = [p for p in firstp if p.kind == "return"]
-    if not first or not isinstance(first[0].value, S.Rec):
-        bad = any(p.kind == "crash" for p in firstp)
-        ctx.decide(rule, False if bad else None, a, None, construct="adjoint-constructor", detail=f"adjoint constructor does not evaluate to a record ({_why(firstp)})")
-        return
-    fsrec = first[0].value
-    I1 = first[0].I
-    # the mesh of a function space: the field in which the ordinary constructor stores one of its arguments unchanged, and that argument
-    ordp = [p for p in run_ctor(f, lambda J, p_: mode0 if p_ == mpar else J.sym(p_)) if p.kind == "return" and isinstance(p.value, S.Rec)]
-    if not ordp:
-        raise Incomplete("the ordinary constructor does not evaluate to a record")
-    stored = [(fld, ordp[0].I.canon(v)[1]) for fld, v in zip(ordp[0].value.fields, ordp[0].value.values)
-              if ordp[0].I.canon(v)[0] == "sym" and ordp[0].I.canon(v)[1] in fps and reads.get(ordp[0].I.canon(v)[1])]
-    stored = [(fld, q) for fld, q in stored if q in types] or stored
-    if len(stored) != 1 or stored[0][0] not in fsrec.fields:
-        raise Incomplete(f"cannot identify the mesh field of the function space (candidates {stored})")
-    mesh_field, mesh_par = stored[0]
-    mrec = fsrec.get(mesh_field)
-    if I1.typed(mrec) is not None:
-        mrec = I1.as_rec(mrec)
-    if not isinstance(mrec, S.Rec):
-        ctx.undecided(rule, a, None, construct="mesh-field:coords", detail=f"the mesh stored by the adjoint constructor is `{S.show(I1.canon(mrec))[:80]}`, not a record this rule can read")
-        return
-    nreq = len(mrec.fields) - mrec.ndefaults
+    # ---- correspondence of the parameters: adjoint parameter -> ordinary parameter
+    a2f = {}
+    if ca.mode_pars and cf.mode_pars:
+        a2f[next(iter(ca.mode_pars))] = next(iter(cf.mode_pars))
+    ta, tf = ca.record_types(nts), cf.record_types(nts)
+    for q, nt in ta.items():
+        same = [r for r, nt2 in tf.items() if nt2 is nt]
+        if len(same) == 1 and len([q2 for q2, nt3 in ta.items() if nt3 is nt]) == 1 and q not in a2f and same[0] not in a2f.values():
+            a2f[q] = same[0]
+    def pair_up(sig_a, sig_f):
+        """match the still unmatched parameters whose signature (a hashable role description) is the same and unique on both sides"""
+        for q in ca.params:
+            if q in a2f or sig_a(q) is None:
+                continue
+            same_f = [r for r in cf.params if r not in a2f.values() and sig_f(r) == sig_a(q)]
+            same_a = [q2 for q2 in ca.params if q2 not in a2f and sig_a(q2) == sig_a(q)]
+            if len(same_f) == 1 and len(same_a) == 1:
+                a2f[q] = same_f[0]
+    # the field of the result in which the parameter is kept; the set of attributes read off it; as a last resort the name
+    pair_up(lambda q: tuple(sorted(ca.kept.get(q, ()))) or None, lambda r: tuple(sorted(cf.kept.get(r, ()))) or None)
+    pair_up(lambda q: tuple(sorted(ca.reads.get(q, ()))) or None, lambda r: tuple(sorted(cf.reads.get(r, ()))) or None)
+    for q in ca.params:
+        if q not in a2f and q in cf.params and q not in a2f.values():
+            a2f[q] = q
+    extra = [q for q in ca.params if q not in a2f]
+    missing = [r for r in cf.params if r not in a2f.values()]
+    if len(extra) != 1 or missing:
+        raise Incomplete(f"parameters of the adjoint constructor {ca.params} are not those of the ordinary constructor {cf.params} plus the coordinates "
+                         f"(matched {a2f})")
+    cpar = extra[0]
+    cname = cpar if cpar not in cf.params else f"{cpar}'"
+    C = ("sym", cname)
+    sym_of_a = lambda q: cname if q == cpar else a2f[q]          # symbol name that stands for adjoint parameter q
+    mpar_f = next(iter(cf.mode_pars)) if cf.mode_pars else a2f[next(iter(ca.mode_pars))]
+    mpar_a = next(q for q in ca.params if q != cpar and a2f[q] == mpar_f)
+    da, df = a.default_of(mpar_a), f.default_of(mpar_f)
+    ctx.decide(rule, (da is None and df is None) or (da is not None and df is not None and const_value(da) == const_value(df)), a, da, construct="default-mode",
+               detail=f"default {mpar_a} = {src(da)} in both constructors",
+               bad_detail=f"default {mpar_a} is {src(da)} in the adjoint constructor and {src(df)} in the ordinary one")
+    # record types of the (shared) argument symbols: the unique record type of the library that has all the fields either constructor reads
+    reads_a = {a2f[q]: v for q, v in ca.reads.items() if q in a2f}
+    tys = cf.record_types(nts, reads_a)
+    for q, nt in ta.items():
+        if q in a2f and a2f[q] not in tys and not cf.reads.get(a2f[q]):
+            tys[a2f[q]] = nt
+    types = {par: (nt.name, nt.fields, len(nt.defaults)) for par, nt in tys.items()}
 
-    def field_of(J, fld):
-        return J.canon(J.getattr(J.sym(mesh_par), fld))
+    named = lambda sc: _inline(sc) and (sc is a or sc is f or sc.module is a.module or sc.name.startswith("_"))
 
-    def pp0(c):
-        t = S.show(c)
-        for par, (tn, flds, nd) in types.items():
-            t = re.sub(rf"\b{re.escape(par)}\[(\d+)\]", lambda m, flds=flds, par=par: f"{par}.{flds[int(m.group(1))]}" if int(m.group(1)) < len(flds) else m.group(0), t)
-        return t
-    coord_fields = [fld for fld, v in zip(mrec.fields, mrec.values) if I1.canon(v) == C]
-    for i, (fld, v) in enumerate(zip(mrec.fields, mrec.values)):
-        c = I1.canon(v)
-        if c == C:
-            ctx.decide(rule, fld == "coords", a, None, construct=f"mesh-field:{fld}", detail=f"{fld} = {S.show(c)}",
-                       bad_detail=f"rebuilt mesh field {fld} = {S.show(c)} (the perturbed coordinates belong in `coords`)")
-        elif c == field_of(I1, fld):
-            ctx.proved(rule, a, None, construct=f"mesh-field:{fld}", detail=f"{fld} = {mesh_par}.{fld}")
-        elif c == ("c", None) and i >= nreq:
-            note = f"construct_function_space_for_adjoint: optional mesh field `{fld}` is not copied to the rebuilt mesh (left at its default)"
-            if note not in ctx.notes:
-                ctx.notes.append(note)
-        else:
-            other = [g for g in mrec.fields if g != fld and c == field_of(I1, g)]
-            ctx.decide(rule, False if (other or _atomic(c)) else None, a, None, construct=f"mesh-field:{fld}",
-                       detail=f"rebuilt mesh field {fld} = {pp0(c)[:80]} (expected {mesh_par}.{fld})")
-    if "coords" in mrec.fields and not coord_fields:
-        ctx.refuted(rule, a, None, construct="mesh-field:coords", detail="the rebuilt mesh does not carry the perturbed coordinates")
+    def run_ctor(sc, argmap, policy=None):
+        def run(J):
+            fn = J.module_value(sc.module, sc.name)
+            return J.call_closure(fn, [argmap(J, p_) for p_ in sc.params()], {}, force=True)
+        return S.paths(lambda plan: _interp(ctx, plan, types=types, inline=policy), run, limit=32)
+
+    def args_a(mode, J, q):
+        return mode if q == mpar_a else J.sym(sym_of_a(q))
 
     def pp(c):
         t = S.show(c)
@@ -1569,13 +1822,88 @@ def d5(ctx):
             t = re.sub(rf"\b{re.escape(par)}\[(\d+)\]", lambda m, flds=flds, par=par: f"{par}.{flds[int(m.group(1))]}" if int(m.group(1)) < len(flds) else m.group(0), t)
         return t
 
-    # pass 2: per mode literal, compare the two constructors field by field
+    # ---- the mesh parameter and its coordinate field, by role
+    mode0 = sorted(modes_seen)[0]
+    firstp = run_ctor(a, lambda J, q: args_a(mode0, J, q))
+    first = [p for p in firstp if p.kind == "return"]
+    if not first or not isinstance(first[0].value, S.Rec):
+        bad = any(p.kind == "crash" for p in firstp)
+        ctx.decide(rule, False if bad else None, a, None, construct="adjoint-constructor", detail=f"adjoint constructor does not evaluate to a record ({_why(firstp)})")
+        return
+    fsrec, I1 = first[0].value, first[0].I
+    ordp = [p for p in run_ctor(f, lambda J, r: mode0 if r == mpar_f else J.sym(r)) if p.kind == "return" and isinstance(p.value, S.Rec)]
+    if not ordp:
+        raise Incomplete("the ordinary constructor does not evaluate to a record")
+    ordrec, I2 = ordp[0].value, ordp[0].I
+    pairs = _substituted(I2.canon(ordrec), I1.canon(fsrec), types, [])
+    cands = {x for (x, y) in pairs if y == C and x[0] == "item" and x[1][0] == "sym" and x[1][1] in types and x[2][0] == "c" and isinstance(x[2][1], int)}
+    how = "the input of the ordinary constructor that the adjoint constructor replaces by its extra argument"
+    if len(cands) != 1:
+        # the record the adjoint constructor stores with its extra argument in exactly one field
+        cands = set()
+        for v in fsrec.values:
+            if isinstance(v, S.Rec):
+                for par, (tn, flds, nd) in types.items():
+                    hits = [j for j, x in enumerate(v.values) if I1.canon(x) == C]
+                    if tn == v.tname and len(hits) == 1 and sum(1 for j, x in enumerate(v.values) if I1.canon(x) == ("item", ("sym", par), ("c", j))) >= len(flds) - 1 - nd:
+                        cands.add(("item", ("sym", par), ("c", hits[0])))
+        how = "the field of the rebuilt record that holds the extra argument"
+    if len(cands) != 1:
+        # vocabulary: the field that carries the name of the extra parameter
+        cands = {("item", ("sym", par), ("c", flds.index(cpar))) for par, (tn, flds, nd) in types.items() if cpar in flds}
+        how = "the record field named like the extra parameter"
+    if len(cands) != 1:
+        raise Incomplete(f"cannot identify which input of the ordinary constructor the extra argument `{cpar}` of the adjoint constructor stands for (candidates {sorted(S.show(x) for x in cands)})")
+    pk = next(iter(cands))
+    mesh_par, kidx = pk[1][1], pk[2][1]
+    mtname, mfields, mnd = types[mesh_par]
+    kname = mfields[kidx]
+    stored = [fld for fld, v in zip(ordrec.fields, ordrec.values) if I2.canon(v) == ("sym", mesh_par)]
+    if len(stored) != 1 or stored[0] not in fsrec.fields:
+        raise Incomplete(f"cannot identify the field in which the function space stores `{mesh_par}` (candidates {stored})")
+    mesh_field = stored[0]
+    ctx.notes.append(f"construct_function_space_for_adjoint: `{cpar}` stands for `{mesh_par}.{kname}` ({how}); the function space keeps `{mesh_par}` in field `{mesh_field}`") \
+        if not any(n.startswith("construct_function_space_for_adjoint: `") for n in ctx.notes) else None
+    mrec = fsrec.get(mesh_field)
+    if I1.typed(mrec) is not None:
+        mrec = I1.as_rec(mrec)
+    if not isinstance(mrec, S.Rec) or mrec.tname != mtname or tuple(mrec.fields) != tuple(mfields):
+        c = I1.canon(mrec)
+        ctx.decide(rule, False if c == ("sym", mesh_par) else None, a, None, construct=f"mesh-field:{kname}",
+                   detail=f"the mesh stored by the adjoint constructor is `{S.show(c)[:80]}`, not a record this rule can read",
+                   bad_detail=f"the adjoint constructor stores the mesh it was given: its `{kname}` are the old coordinates, not `{cpar}`")
+        return
+    nreq = len(mrec.fields) - mrec.ndefaults
+    field_of = lambda g: ("item", ("sym", mesh_par), ("c", mfields.index(g)))
+    for i, (fld, v) in enumerate(zip(mrec.fields, mrec.values)):
+        c = I1.canon(v)
+        if fld == kname:
+            ctx.decide(rule, True if c == C else (False if (_atomic(c) or any(c == field_of(g) for g in mfields)) else None), a, None, construct=f"mesh-field:{fld}",
+                       detail=f"{fld} = {S.show(c)}",
+                       bad_detail=f"the rebuilt mesh does not carry the perturbed coordinates: {fld} = {pp(c)[:80]}")
+        elif c == C:
+            ctx.refuted(rule, a, None, construct=f"mesh-field:{fld}", detail=f"rebuilt mesh field {fld} = {S.show(c)} (the perturbed coordinates belong in `{kname}`)")
+        elif c == field_of(fld):
+            ctx.proved(rule, a, None, construct=f"mesh-field:{fld}", detail=f"{fld} = {mesh_par}.{fld}")
+        elif c == ("c", None) and i >= nreq:
+            note = f"construct_function_space_for_adjoint: optional mesh field `{fld}` is not copied to the rebuilt mesh (left at its default)"
+            if note not in ctx.notes:
+                ctx.notes.append(note)
+        else:
+            other = [g for g in mrec.fields if g != fld and c == field_of(g)]
+            ctx.decide(rule, False if (other or _atomic(c)) else None, a, None, construct=f"mesh-field:{fld}",
+                       detail=f"rebuilt mesh field {fld} = {pp(c)[:80]} (expected {mesh_par}.{fld})")
+
+    # ---- per mode literal, compare the two constructors field by field
     def moved_mesh(J):
-        return S.Rec(mrec.tname, mrec.fields, [J.sym(cpar) if fld == "coords" else J.getattr(J.sym(mesh_par), fld) for fld in mrec.fields], mrec.ndefaults)
+        return S.Rec(mtname, mfields, [J.sym(cname) if g == kname else J.getitem(J.sym(mesh_par), j) for j, g in enumerate(mfields)], mnd)
+
+    def args_f(mode, J, r):
+        return mode if r == mpar_f else (moved_mesh(J) if r == mesh_par else J.sym(r))
 
     for mode in sorted(modes_seen):
-        pa = run_ctor(a, lambda J, p_: mode if p_ == mpar else J.sym(p_))
-        pf = run_ctor(f, lambda J, p_: mode if p_ == mpar else (moved_mesh(J) if p_ == mesh_par else J.sym(p_)))
+        pa = run_ctor(a, lambda J, q: args_a(mode, J, q))
+        pf = run_ctor(f, lambda J, r: args_f(mode, J, r))
         if len(pa) != 1 or len(pf) != 1:
             ctx.undecided(rule, a, None, construct=f"{mode}:paths", detail=f"{len(pa)} / {len(pf)} paths for a fixed mode (data-dependent branching)")
             continue
@@ -1590,23 +1918,42 @@ def d5(ctx):
             continue
         va, vf = qa.value, qf.value
         if not (isinstance(va, S.Rec) and isinstance(vf, S.Rec) and va.fields == vf.fields and va.tname == vf.tname):
-            ctx.refuted(rule, a, None, construct=f"{mode}:record", detail=f"adjoint constructor returns {S.show(qa.I.canon(va))[:80]}, ordinary constructor {S.show(qf.I.canon(vf))[:80]}")
+            ctx.decide(rule, False if (isinstance(va, S.Rec) and isinstance(vf, S.Rec)) else None, a, None, construct=f"{mode}:record",
+                       detail=f"adjoint constructor returns {S.show(qa.I.canon(va))[:80]}, ordinary constructor {S.show(qf.I.canon(vf))[:80]}")
             continue
-        for fld, xa, xf in zip(va.fields, va.values, vf.values):
-            ca, cf = qa.I.canon(xa), qf.I.canon(xf)
+        # the same two computations with the library's public functions kept as names: the evidence for a refutation
+        na = [p for p in run_ctor(a, lambda J, q: args_a(mode, J, q), named) if p.kind == "return" and isinstance(p.value, S.Rec)]
+        nf = [p for p in run_ctor(f, lambda J, r: args_f(mode, J, r), named) if p.kind == "return" and isinstance(p.value, S.Rec)]
+        named_ok = len(na) == 1 and len(nf) == 1 and na[0].value.fields == va.fields and nf[0].value.fields == va.fields
+        for k, (fld, xa, xf) in enumerate(zip(va.fields, va.values, vf.values)):
+            ca_, cf_ = qa.I.canon(xa), qf.I.canon(xf)
             if fld == mesh_field and qa.I.typed(xa) is not None:
                 xa = qa.I.as_rec(xa)
             if fld == mesh_field and isinstance(xa, S.Rec) and isinstance(xf, S.Rec) and xa.fields == xf.fields:
                 # optional fields left at their default are recorded above as a note
-                diff = [g for k, (g, y1, y2) in enumerate(zip(xa.fields, xa.values, xf.values))
-                        if qa.I.canon(y1) != qf.I.canon(y2) and not (qa.I.canon(y1) == ("c", None) and k >= nreq)]
-                ok, bad = not diff, f"a mesh whose fields {diff} differ from the moved mesh"
+                diff = [g for j, (g, y1, y2) in enumerate(zip(xa.fields, xa.values, xf.values))
+                        if qa.I.canon(y1) != qf.I.canon(y2) and not (qa.I.canon(y1) == ("c", None) and j >= nreq)]
+                verdicts = [_differs(qa.I.canon(y1), qf.I.canon(y2))[0] for g, y1, y2 in zip(xa.fields, xa.values, xf.values) if g in diff]
+                ok = True if not diff else (False if any(v is False for v in verdicts) else None)
+                bad = f"a mesh whose fields {diff} differ from the moved mesh"
+            elif ca_ == cf_:
+                ok, bad = True, ""
             else:
-                ok, what = _differs(ca, cf)
-                swapped = [g for g, y in zip(vf.fields, vf.values) if g != fld and qf.I.canon(y) == ca]
-                if ok is not True and swapped:
-                    ok, what = False, f"it is the value of the field `{swapped[0]}`"
-                bad = f"not the ordinary constructor's value: {what} (adjoint: `{pp(ca)[:140]}`; ordinary constructor on the moved mesh: `{pp(cf)[:140]}`)"
+                ok, what = None, "a different computation: equivalence not decided"
+                if named_ok:
+                    ranks = {}
+                    for J in (qa.I, qf.I, na[0].I, nf[0].I):
+                        ranks.update(J.ranks)
+                    ya, yf = _expand_shapes(na[0].I.canon(na[0].value.values[k]), ranks), _expand_shapes(nf[0].I.canon(nf[0].value.values[k]), ranks)
+                    if ya != yf:
+                        ok, what = _differs(ya, yf)
+                        swapped = [g for g, y in zip(nf[0].value.fields, nf[0].value.values) if g != fld and nf[0].I.canon(y) == ya]
+                        if ok is not True and swapped:
+                            ok, what = False, f"it is the value of the field `{swapped[0]}`"
+                        if ok is True:
+                            ok = None
+                        ca_, cf_ = ya, yf
+                bad = f"not the ordinary constructor's value: {what} (adjoint: `{pp(ca_)[:140]}`; ordinary constructor on the moved mesh: `{pp(cf_)[:140]}`)"
             ctx.decide(rule, ok, a, None, construct=f"{mode}:field:{fld}",
                        detail=f"mode '{mode}': {fld} equals the ordinary constructor's value on the moved mesh",
                        bad_detail=f"mode '{mode}': FunctionSpace.{fld} of the adjoint constructor is {bad}: the rebuilt function space differs from one built on the moved mesh")
@@ -1647,7 +1994,8 @@ def variants(repo):
     MIp = "optimism/inverse/MechanicsInverse.py"
     A = "optimism/inverse/AdjointFunctionSpace.py"
     E = "optimism/EquationSolver.py"
-    return _refactoring_variants(Variant, sub, sub_in_func, N, O, MIp, A, E) + [
+    from .C07_variants import bold_variants
+    return _refactoring_variants(Variant, sub, sub_in_func, N, O, MIp, A, E) + bold_variants(Variant) + [
         Variant("extra solver parameter (arity drift)", E,
                 sub("def solve_trust_region_minimization(x, r, hess_vec_func, precond, trSize, settings):",
                     "def solve_trust_region_minimization(x, r, hess_vec_func, precond, mult_by_approx_hessian, trSize, settings):"),
